@@ -337,11 +337,11 @@ def anon(x):
     return x
 
 def findall_sharing(uf, m_py, m_compiled):
-    """the model's engine with Python predicates and its all-compiled engine differ ONLY in the identity of variables, in a program
-    that uses findall/3: findall does not copy the instances it collects, so a variable the goal leaves unbound is shared between them
-    with compiled clauses and distinct with a Python predicate (see same_modulo_findall; the implementation flags it through
-    semcheck.watch_findall only when the enumeration gets that far - not when a predicate raises first)"""
-    return bool(uf) and m_py['answers'] != m_compiled['answers'] and anon(m_py['answers']) == anon(m_compiled['answers'])
+    """no tolerance any more: findall/3 collects copies with new variables (engine since the repair D27, model Sem/Machine.collect
+    with lo = 0), so the engine with Python predicates and its all-compiled twin agree exactly (answers with unbound variables
+    renamed by first occurrence) also where findall is used; before D27 a variable that the goal left unbound was shared between
+    the collected instances with compiled clauses and distinct with a Python predicate"""
+    return False
 
 def uses_findall(case):
     cs = set()
@@ -380,7 +380,7 @@ def compare_phase(case, ioA, ioB, mo, natives, tagmap=None):
         if tagmap is not None and mn['exn'][0] == 'py':
             mn['exn'] = ['py', tagmap[mn['exn'][1]]]      # position in the registered subset -> position in the case
         a, b = a0, b0
-        fa = a0.get('findall_inner') or b0.get('findall_inner') or findall_sharing(uf, mnr, mc)
+        fa = findall_sharing(uf, mnr, mc)
         if fa:
             mn, mc, mnr = [dict(v, answers=anon(v['answers'])) for v in (mn, mc, mnr)]
             a, b = dict(a0, answers=anon(a0['answers'])), dict(b0, answers=anon(b0['answers']))
@@ -437,12 +437,7 @@ def compare_phase(case, ioA, ioB, mo, natives, tagmap=None):
     return None
 
 def same_modulo_findall(a, b):
-    """True when the two engines' answers DIFFER.  findall/3 does not copy the instances it collects (get_value only): a variable
-    that the goal leaves unbound is the caller's own variable in every collected instance (shared) when compiled clauses leave it
-    alone, but a Python predicate's unify binds it to the fresh variable of its row (distinct per instance).  When findall collected
-    variables created while its goal ran (semcheck.watch_findall), the identity of variables is therefore not compared."""
-    if a.get('findall_inner') or b.get('findall_inner'):
-        return anon(a['answers']) != anon(b['answers']) or a['count'] != b['count']
+    """True when the two engines' answers DIFFER (exact comparison; the name is historical, see findall_sharing)"""
     return a['answers'] != b['answers'] or a['count'] != b['count']
 
 def oracle(case, io):
@@ -686,7 +681,7 @@ def compare_mixed(case, io, mo):
         for q, a0, b0, m in zip(case['queries'], io['Ar'][rnd], io['Br'][rnd], mo[rnd]):
             mn, mt, mnr = view(m[0]), view(m[1]), view(m[3])
             a, b = a0, b0
-            if a0.get('findall_inner') or b0.get('findall_inner') or findall_sharing(uf, mnr, mt):
+            if findall_sharing(uf, mnr, mt):
                 mn, mt, mnr = [dict(v, answers=anon(v['answers'])) for v in (mn, mt, mnr)]
                 a, b = dict(a0, answers=anon(a0['answers'])), dict(b0, answers=anon(b0['answers']))
             t = where + 'query ' + qtext(q)
